@@ -27,6 +27,8 @@ import ZODB.interfaces
 import ZODB.POSException
 import ZODB.TimeStamp
 import ZODB.utils
+from ZODB._compat import _protocol
+from ZODB._compat import dumps
 
 
 @zope.interface.implementer(
@@ -350,6 +352,13 @@ class TransactionRecord:
     _extension = property(lambda self: self.extension,
                           lambda self, v: setattr(self, 'extension', v),
                           )
+
+    @property
+    def extension_bytes(self):
+        # IStorageTransactionMetaData: what tpc_begin of the storage a
+        # transaction is copied into reads.
+        extension = self.extension
+        return dumps(extension, _protocol) if extension else b''
 
     def __iter__(self):
         for oid, data in self.data.items():
